@@ -363,12 +363,14 @@ impl Generator for ColumnSortingGenerator<'_> {
                         }))
                     })*
 
-                    // if what is missing is a flattened field then report that error
+                    // if what is missing is a flattened field then report that error;
+                    // a flattened struct that is not marked as visited may still miss nothing
+                    // (e.g. it has no fields), so the remaining ones have to be checked too
                     #(if !self.#flattened_visited_flag_names {
-                        return <<#flattened_types as #crate_path::SerializeRowByName>::Partial<#partial_lt> as #crate_path::PartialSerializeRowByName>::check_missing(self.#flattened_fields)
+                        <<#flattened_types as #crate_path::SerializeRowByName>::Partial<#partial_lt> as #crate_path::PartialSerializeRowByName>::check_missing(self.#flattened_fields)?;
                     })*
 
-                    ::std::unreachable!()
+                    ::std::result::Result::Ok(())
                 }
             }
         };
